@@ -469,7 +469,7 @@ func init() {
 		Rule: "one case = one rich source history (70/160 blocks: the locking workload with creates, dust locks, unlock bursts, weight/threshold changes, absences, evidence; deposits and withdrawals in every stage; relayer key rotation; pending, boarding and off-boarding voters; tax/minimum changes) from which 5/12 states are exported at irregular heights; each export is imported into a fresh node exactly as CometBFT starts a chain from it (InitChain with initial height = exported height and validators = exported validators); " +
 			"oracles: the import neither errors nor panics; InitChain's validators equal the exported active set; a module-by-module export of the imported state equals the first export (canonical JSON); the imported chain then runs 14/30 blocks of the locking workload (first block with the empty LastCommit CometBFT sends at the initial height) during which FinalizeBlock never fails, honest proposals are accepted, the block message succeeds, and the C11 (locked funds), C12 (rewards) and C13 (validator set) monitors hold; finally every validator, withdrawal, credited deposit and voter of the export can be queried. Non-trivial = an exported state; distinct = the set of state traits it has (validator/voter/withdrawal statuses present, queues, slashing, parameters).",
 		Assume: []string{"queries are compared after the imported chain has advanced; only facts the locking workload cannot change are compared"},
-		Cases:  func(tier string) int { return map[string]int{"quick": 16, "thorough": 120}[tier] },
+		Cases:  func(tier string) int { return map[string]int{"quick": 32, "thorough": 120}[tier] },
 		Run:    func(c *vc.Ctx, i int) { c18History(c, i) },
 	})
 }
